@@ -9,15 +9,20 @@ import (
 )
 
 type Ctx struct {
-	R    *rec.Rec
-	Rng  *gen.Rand
-	Tier string
-	Seed uint64
-	E    Engine
+	// Guard: write every op line to pending.txt before executing it (engines whose ops can kill the process)
+	Guard bool
+	R     *rec.Rec
+	Rng   *gen.Rand
+	Tier  string
+	Seed  uint64
+	E     Engine
 }
 
 // Do executes one op line on the implementation and records line + observation.
 func (c *Ctx) Do(line string) string {
+	if c.Guard {
+		c.R.Pending(line)
+	}
 	obs, viol := c.E.Exec(line)
 	c.R.Op(line, obs)
 	if viol != "" {
